@@ -512,10 +512,12 @@ def reader_model(facts, rep, R2, rd):
     # header fields: named locals defined by a stream read before any loop, in order
     fields = []
     for l in range(len(nv.locals)):
-        if nv.is_atom(l) and nv.local_ty(l) == "u32":
+        if nv.is_atom(l) and nv.local_ty(l) in ("u32", "usize", "u64"):
             ds = nv.defs().get(l, [])
             if len(ds) == 1 and not enclosing_loops(loops, ds[0][0]):
                 d = norm(nv.definition(l))
+                if nv.local_ty(l) != "u32" and (strip_refs(d)[0] != "cast" or any(x[0] == "bin" for x in walk(d))):
+                    continue        # (a header word widened on the spot: `read_u32(..)? as usize`)
                 if any(x[0] == "call" and x[1].endswith("read_u32") for x in walk(d)):
                     fields.append((idx.get(ds[0][0], 0), l, nv.local_name(l)))
     fields.sort()
